@@ -248,29 +248,53 @@ def task_orbital_time(ctx, scale_name):
 
 
 def task_held_suarez_rates(ctx):
-  """kv, kt with FULLY SYMBOLIC sigma levels and parameters, run through the real numpy code (TermArr as duck array)."""
-  from dinosaur import held_suarez as hs
+  """kv, kt with FULLY SYMBOLIC sigma levels and parameters, run through the real numpy code of a REAL HeldSuarezForcing object whose level /
+  parameter attributes are replaced by symbolic duck arrays (methods may call each other).  A satisfiable query is settled on the same object
+  with the solver's values as concrete attributes (violation if the real rates break the clause or are not finite)."""
+  import copy
+  from dinosaur import held_suarez as hs, primitive_equations as pe, scales
   ctx.encoded(hs.HeldSuarezForcing.kv, hs.HeldSuarezForcing.kt, hs.HeldSuarezForcing.equilibrium_temperature)
   K = 4
   sp = TermSpace()
-
-  class Fake:
-    pass
-  f = Fake()
+  coords = models.make_coords(dict(M=2, L=3, nlon=5, nlat=5), np.linspace(0, 1, K + 1))
+  specs = pe.PrimitiveEquationsSpecs.from_si()
+  real = hs.HeldSuarezForcing(coords, specs, np.full(K, float(specs.nondimensionalize(288 * scales.units.degK))))
+  lat = np.arcsin(np.array([[-0.9, -0.3, 0.0, 0.5, 1.0]]))
+  f = copy.copy(real)
   f.sigma = TermArr.variables(sp, 'sigma', (K,)); f.sigma_b = TermArr.variables(sp, 'sigma_b', ()); f.kf = TermArr.variables(sp, 'kf', ())
   f.ka = TermArr.variables(sp, 'ka', ()); f.ks = TermArr.variables(sp, 'ks', ())
-  f.lat = np.arcsin(np.array([[-0.9, -0.3, 0.0, 0.5, 1.0]]))
-  kv = hs.HeldSuarezForcing.kv(f); kt = hs.HeldSuarezForcing.kt(f)
+  f.lat = lat
+  kv = f.kv(); kt = f.kt()
   sg = list(f.sigma.a); sb = f.sigma_b.a.reshape(-1)[0]; kf = f.kf.a.reshape(-1)[0]; ka = f.ka.a.reshape(-1)[0]; ks = f.ks.a.reshape(-1)[0]
   pre = [z3.And(s > 0, s < 1) for s in sg] + [sb > 0, sb < 1, kf >= 0, ka >= 0, ks >= ka]
-  conf = dict(symbolic='sigma levels in (0,1), sigma_b in (0,1), kf >= 0, ks >= ka >= 0', K=K)
+  conf = dict(symbolic='sigma levels in (0,1), sigma_b in (0,1), kf >= 0 (friction may be switched off), ks >= ka >= 0', K=K)
+
+  def settle(name, ok_model):
+    ok, model = ok_model
+    if ok or model is None:
+      return
+    vals = dict(sigma=[_fval(model, s_) for s_ in sg], sigma_b=_fval(model, sb), kf=_fval(model, kf), ka=_fval(model, ka), ks=_fval(model, ks))
+    g = copy.copy(real)
+    g.sigma = np.asarray(vals['sigma']); g.sigma_b = vals['sigma_b']; g.kf = vals['kf']; g.ka = vals['ka']; g.ks = vals['ks']; g.lat = lat
+    with np.errstate(all='ignore'):
+      kvc = np.asarray(g.kv(), float).reshape(-1); ktc = np.asarray(g.kt(), float)
+    bad = []
+    if not np.all(np.isfinite(kvc)) or np.any(kvc < 0): bad.append(f'friction rate {kvc.tolist()}')
+    if not np.all(np.isfinite(ktc)) or np.any(ktc < vals['ka'] - 1e-12) or np.any(ktc > vals['ks'] + 1e-12): bad.append(f'relaxation rate range [{np.nanmin(ktc) if np.isfinite(ktc).any() else float("nan")}, {np.nanmax(ktc) if np.isfinite(ktc).any() else float("nan")}] (non-finite entries: {int((~np.isfinite(ktc)).sum())})')
+    for k in range(K):
+      exp = vals['kf'] * max(0.0, (vals['sigma'][k] - vals['sigma_b']) / (1 - vals['sigma_b']))
+      if np.isfinite(kvc[k]) and abs(kvc[k] - exp) > 1e-9 * max(1.0, abs(exp)): bad.append(f'kv[{k}] = {kvc[k]} but kf * depth = {exp}')
+    if bad:
+      ctx.violation(name, dict(config=conf, kind='held-suarez-rates'), dict(inputs=vals, problems=bad), f'{name}: with {vals}: ' + '; '.join(bad[:2]))
+    else:
+      ctx.error(name, f'query satisfiable but the real rates satisfy the clause at the solver values {vals}')
   kvv = [_r(x) for x in kv.a.reshape(-1)]
-  decide(ctx, 'held_suarez.friction_rate_nonnegative', conf, pre, z3.Or(*[x < 0 for x in kvv]), 'QF_NRA')
-  decide(ctx, 'held_suarez.friction_zero_above_boundary_layer', conf, pre, z3.Or(*[z3.And(sg[k] <= sb, kvv[k] != 0) for k in range(K)]), 'QF_NRA')
-  decide(ctx, 'held_suarez.friction_is_kf_times_normalised_depth_below', conf, pre,
-         z3.Or(*[z3.And(sg[k] > sb, kvv[k] * (1 - sb) != kf * (sg[k] - sb)) for k in range(K)]), 'QF_NRA')
+  settle('held_suarez.friction_rate_nonnegative', decide(ctx, 'held_suarez.friction_rate_nonnegative', conf, pre, z3.Or(*[x < 0 for x in kvv]), 'QF_NRA'))
+  settle('held_suarez.friction_zero_above_boundary_layer', decide(ctx, 'held_suarez.friction_zero_above_boundary_layer', conf, pre, z3.Or(*[z3.And(sg[k] <= sb, kvv[k] != 0) for k in range(K)]), 'QF_NRA'))
+  settle('held_suarez.friction_is_kf_times_normalised_depth_below', decide(ctx, 'held_suarez.friction_is_kf_times_normalised_depth_below', conf, pre,
+         z3.Or(*[z3.And(sg[k] > sb, kvv[k] * (1 - sb) != kf * (sg[k] - sb)) for k in range(K)]), 'QF_NRA'))
   ktv = [_r(x) for x in kt.a.reshape(-1)]
-  decide(ctx, 'held_suarez.relaxation_rate_nonnegative_and_between_ka_ks', conf, pre, z3.Or(*[z3.Or(x < ka, x > ks) for x in ktv]), 'QF_NRA')
+  settle('held_suarez.relaxation_rate_nonnegative_and_between_ka_ks', decide(ctx, 'held_suarez.relaxation_rate_nonnegative_and_between_ka_ks', conf, pre, z3.Or(*[z3.Or(x < ka, x > ks) for x in ktv]), 'QF_NRA'))
 
 
 def task_held_suarez_state(ctx, cfg, levels, lname):
